@@ -261,14 +261,12 @@ Definition ser_dict (l : list (bytes * bvalue)) : bytes := flat_map (fun kv => s
 
 Lemma ser_BList l : ser (BList l) = ch_l :: ser_list l ++ [ch_e].
 Proof.
-  cbn [ser]. f_equal. f_equal. induction l as [|x l IH]; [reflexivity|].
-  cbn [ser_list flat_map]. rewrite IH. reflexivity.
+  reflexivity.
 Qed.
 
 Lemma ser_BDict l : ser (BDict l) = ch_d :: ser_dict l ++ [ch_e].
 Proof.
-  cbn [ser]. f_equal. f_equal. induction l as [|x l IH]; [reflexivity|].
-  cbn [ser_dict flat_map]. rewrite IH, <- app_assoc. reflexivity.
+  reflexivity.
 Qed.
 
 (* sizes and ranges that the wire format can carry: i64 integers, lengths below 2^64 *)
@@ -306,7 +304,10 @@ Lemma ser_str_length s : (1 <= length (ser_str s))%nat.
 Proof. unfold ser_str. rewrite app_length. cbn. lia. Qed.
 
 Lemma ser_length_pos v : (1 <= length (ser v))%nat.
-Proof. destruct v; cbn [ser ser_int]; try apply ser_str_length; cbn [length]; lia. Qed.
+Proof.
+  destruct v; [cbn [ser]; unfold ser_int | apply ser_str_length | rewrite ser_BList | rewrite ser_BDict];
+    cbn [length]; lia.
+Qed.
 
 (* the generic round trip, in the shape the callers need: the first token is read
    by [tok], it is not End, and [any_from] on it rebuilds the tree *)
@@ -363,14 +364,351 @@ Proof.
         destruct (tok_str (fst x) (ser (snd x) ++ ser_dict l ++ ch_e :: rest) Hk lg mx) as [lg0 [mx0 Ek]].
         destruct (IHx Hx f d (ser_dict l ++ ch_e :: rest) lg0 mx0 ltac:(lia)) as [t [s1 [lg1 [mx1 [Et [Hne Ea]]]]]].
         destruct (IHl IHr Hr f d rest lg1 mx1 ltac:(lia)) as [lg2 [mx2 El]].
+        assert (Hkf : any_from f d (TBytes (fst x)) = ret (CStr (fst x)))
+          by (destruct f; [lia | reflexivity]).
         exists lg2, mx2. cbn [any_map]. unfold bind at 1. rewrite Ek.
-        destruct f; [lia|]. cbn [any_from]. unfold bind, ret. rewrite Et.
-        change (any_from (S f) d t s1) with (any_from (S f) d t s1) in Ea.
-        rewrite Ea, El. reflexivity. }
+        rewrite Hkf. unfold bind, ret. rewrite Et, Ea, El. reflexivity. }
     cbn [length] in Hf. rewrite app_length in Hf. cbn [length] in Hf.
     destruct f; [lia|].
     destruct (Hl f (S d) rest lg (Nat.max mx (S d)) ltac:(lia)) as [lg' [mx' El]].
     exists lg', mx'. split; [reflexivity|]. split; [discriminate|].
     cbn [any_from]. unfold bind, enter. cbn [s_in s_log s_max set_in].
     rewrite <- app_assoc. cbn [app]. rewrite El. reflexivity.
+Qed.
+
+(* ------------------------------------------------------------------ *)
+(* precheck                                                           *)
+
+Ltac len_lia := repeat (progress (rewrite ?app_length in *; cbn [length] in *)); lia.
+
+Lemma split_at_byte_length d s a r : split_at_byte d s = Some (a, r) -> length s = (length a + 1 + length r)%nat.
+Proof. intros H. apply split_at_byte_spec in H as [-> _]. rewrite app_length. cbn. lia. Qed.
+
+(* the fuel of [scan] is irrelevant as soon as it exceeds the input length *)
+Lemma scan_fuel : forall f1 f2 d s, (length s < f1)%nat -> (length s < f2)%nat -> scan f1 d s = scan f2 d s.
+Proof.
+  induction f1 as [|f1 IH]; intros f2 d s H1 H2; [lia|].
+  destruct f2 as [|f2]; [lia|].
+  destruct s as [|c r]; [reflexivity|].
+  cbn [length] in H1, H2.
+  assert (Hafter : forall k s' d', (length s' <= length r)%nat ->
+     (if Nat.eqb d' 0 then Some k else option_map (fun n => (k + n)%nat) (scan f1 d' s'))
+     = (if Nat.eqb d' 0 then Some k else option_map (fun n => (k + n)%nat) (scan f2 d' s'))).
+  { intros k s' d' Hl. destruct (Nat.eqb d' 0); [reflexivity|]. rewrite (IH f2) by lia. reflexivity. }
+  cbn [scan]. destruct (c =? ch_i).
+  - destruct (split_at_byte ch_e r) as [[ds r']|] eqn:E; [|reflexivity].
+    apply Hafter. apply split_at_byte_length in E. lia.
+  - destruct (is_digit c).
+    + destruct (split_at_byte ch_colon r) as [[ds r']|] eqn:E; [|reflexivity].
+      destruct (parse_usize (c :: ds)) as [len|]; [|reflexivity].
+      destruct (N.of_nat (length r') <? len); [reflexivity|].
+      apply Hafter. apply split_at_byte_length in E. rewrite skipn_length. lia.
+    + destruct ((c =? ch_l) || (c =? ch_d)).
+      * destruct (Nat.ltb max_depth (S d)); [reflexivity|]. apply Hafter. lia.
+      * destruct (c =? ch_e); [|reflexivity]. destruct d as [|d']; [reflexivity|]. apply Hafter. lia.
+Qed.
+
+(* nesting depth of a tree: 0 for integers and strings *)
+Fixpoint vdepth (v : bvalue) : nat :=
+  match v with
+  | BInt _ | BStr _ => 0%nat
+  | BList l => S ((fix go (l : list bvalue) : nat :=
+                     match l with [] => 0%nat | x :: r => Nat.max (vdepth x) (go r) end) l)
+  | BDict l => S ((fix go (l : list (bytes * bvalue)) : nat :=
+                     match l with [] => 0%nat | kv :: r => Nat.max (vdepth (snd kv)) (go r) end) l)
+  end.
+
+Definition list_depth (l : list bvalue) : nat := fold_right (fun x a => Nat.max (vdepth x) a) 0%nat l.
+Definition dict_depth (l : list (bytes * bvalue)) : nat := fold_right (fun kv a => Nat.max (vdepth (snd kv)) a) 0%nat l.
+
+Lemma vdepth_BList l : vdepth (BList l) = S (list_depth l).
+Proof. reflexivity. Qed.
+Lemma vdepth_BDict l : vdepth (BDict l) = S (dict_depth l).
+Proof. reflexivity. Qed.
+
+Lemma scan_open f d c r : c = ch_l \/ c = ch_d ->
+  scan (S f) d (c :: r) = if Nat.ltb max_depth (S d) then None
+                          else option_map (fun n => (1 + n)%nat) (scan f (S d) r).
+Proof. intros [-> | ->]; reflexivity. Qed.
+
+Lemma scan_close f d' r :
+  scan (S f) (S d') (ch_e :: r) = if Nat.eqb d' 0 then Some 1%nat
+                                  else option_map (fun n => (1 + n)%nat) (scan f d' r).
+Proof. reflexivity. Qed.
+
+(* one string token inside a container *)
+Lemma scan_str f d s rest :
+  d <> 0%nat -> N.of_nat (length s) < 2 ^ 64 -> (length (ser_str s ++ rest) < f)%nat ->
+  scan f d (ser_str s ++ rest) = option_map (fun n => (length (ser_str s) + n)%nat) (scan f d rest).
+Proof.
+  intros Hd Hs Hf. destruct f as [|f]; [lia|].
+  remember (scan (S f) d rest) as R eqn:HR.
+  unfold ser_str in *. destruct (dec_N_first (N.of_nat (length s))) as [c [ds [E [Hc Hds]]]].
+  rewrite E in *. cbn [app] in *. cbn [scan].
+  assert (Hci : (c =? ch_i) = false) by (apply is_digit_spec in Hc; unfold ch_i; lia).
+  rewrite Hci, Hc. rewrite <- app_assoc. cbn [app].
+  rewrite split_at_byte_app by (apply digits_no; [reflexivity | assumption]).
+  rewrite <- E, parse_usize_dec_N by assumption.
+  rewrite app_length.
+  replace (N.of_nat (length s + length rest) <? N.of_nat (length s)) with false by lia.
+  rewrite Nat2N.id, skipn_app, Nat.sub_diag, skipn_all. cbn [skipn app].
+  destruct (Nat.eqb d 0) eqn:Ed; [apply Nat.eqb_eq in Ed; contradiction|].
+  cbn [length] in Hf. rewrite !app_length in Hf. cbn [length] in Hf.
+  rewrite (scan_fuel f (S f)) by lia. rewrite <- HR.
+  destruct R; [|reflexivity]. cbn [option_map]. f_equal.
+  cbn [length]. rewrite !app_length. cbn [length]. lia.
+Qed.
+
+Lemma scan_int f d z rest :
+  d <> 0%nat -> (- 2 ^ 63 <= z < 2 ^ 63)%Z -> (length (ser_int z ++ rest) < f)%nat ->
+  scan f d (ser_int z ++ rest) = option_map (fun n => (length (ser_int z) + n)%nat) (scan f d rest).
+Proof.
+  intros Hd Hz Hf. destruct f as [|f]; [lia|].
+  remember (scan (S f) d rest) as R eqn:HR.
+  unfold ser_int in *. cbn [app] in *. cbn [scan]. rewrite N.eqb_refl.
+  rewrite <- app_assoc. cbn [app].
+  rewrite split_at_byte_app by (apply dec_Z_shape; assumption).
+  destruct (Nat.eqb d 0) eqn:Ed; [apply Nat.eqb_eq in Ed; contradiction|].
+  cbn [length] in Hf. rewrite !app_length in Hf. cbn [length] in Hf.
+  rewrite (scan_fuel f (S f)) by lia. rewrite <- HR.
+  destruct R; [|reflexivity]. cbn [option_map]. f_equal.
+  cbn [length]. rewrite !app_length. cbn [length]. lia.
+Qed.
+
+(* a whole value inside a container at nesting [d] >= 1 *)
+Lemma scan_ser : forall v, bv_wf v -> forall f d rest,
+  d <> 0%nat -> (d + vdepth v <= max_depth)%nat -> (length (ser v ++ rest) < f)%nat ->
+  scan f d (ser v ++ rest) = option_map (fun n => (length (ser v) + n)%nat) (scan f d rest).
+Proof.
+  induction v as [z|s|l IH|l IH] using bvalue_ind'; intros Hwf f d rest Hd Hdep Hf.
+  - apply scan_int; assumption.
+  - apply scan_str; assumption.
+  - rewrite ser_BList in *. rewrite vdepth_BList in Hdep.
+    assert (Hl : forall f rest, (length (ser_list l ++ rest) < f)%nat ->
+               scan f (S d) (ser_list l ++ rest)
+               = option_map (fun n => (length (ser_list l) + n)%nat) (scan f (S d) rest)).
+    { apply bv_wf_list in Hwf. clear Hf f rest.
+      induction l as [|x l IHl]; intros f rest Hf.
+      - cbn [ser_list flat_map app length]. destruct (scan f (S d) rest); reflexivity.
+      - inversion IH as [|? ? IHx IHr]; subst. inversion Hwf as [|? ? Hx Hr]; subst.
+        cbn [list_depth fold_right] in Hdep. fold (list_depth l) in Hdep.
+        cbn [ser_list flat_map] in *. fold (ser_list l) in *. rewrite <- app_assoc in *.
+        rewrite IHx by (first [assumption | lia | len_lia]).
+        rewrite app_length in Hf.
+        rewrite IHl by (first [assumption | lia | len_lia]).
+        destruct (scan f (S d) rest); [|reflexivity]. cbn [option_map]. f_equal.
+        rewrite app_length. lia. }
+    remember (scan f d rest) as R eqn:HR.
+    destruct f as [|f]; [lia|]. cbn [app]. cbn [scan].
+    replace (ch_l =? ch_i) with false by reflexivity.
+    replace (is_digit ch_l) with false by reflexivity.
+    replace ((ch_l =? ch_l) || (ch_l =? ch_d)) with true by reflexivity.
+    destruct (Nat.ltb max_depth (S d)) eqn:El; [apply Nat.ltb_lt in El; lia|].
+    cbn [Nat.eqb]. cbn [length] in Hf. rewrite <- app_assoc. rewrite !app_length in Hf. cbn [length app] in Hf.
+    rewrite Hl by len_lia. cbn [app].
+    (* the closing e, back to depth d *)
+    destruct f as [|f]; [len_lia|]. cbn [scan].
+    replace (ch_e =? ch_i) with false by reflexivity.
+    replace (is_digit ch_e) with false by reflexivity.
+    replace ((ch_e =? ch_l) || (ch_e =? ch_d)) with false by reflexivity.
+    replace (ch_e =? ch_e) with true by reflexivity.
+    destruct (Nat.eqb d 0) eqn:Ed; [apply Nat.eqb_eq in Ed; contradiction|].
+    rewrite (scan_fuel f (S (S f))) by len_lia. rewrite <- HR.
+    destruct R; [|reflexivity]. cbn [option_map]. f_equal. len_lia.
+  - rewrite ser_BDict in *. rewrite vdepth_BDict in Hdep.
+    assert (Hl : forall f rest, (length (ser_dict l ++ rest) < f)%nat ->
+               scan f (S d) (ser_dict l ++ rest)
+               = option_map (fun n => (length (ser_dict l) + n)%nat) (scan f (S d) rest)).
+    { apply bv_wf_dict in Hwf. clear Hf f rest.
+      induction l as [|x l IHl]; intros f rest Hf.
+      - cbn [ser_dict flat_map app length]. destruct (scan f (S d) rest); reflexivity.
+      - inversion IH as [|? ? IHx IHr]; subst. inversion Hwf as [|? ? [Hk Hx] Hr]; subst.
+        cbn [dict_depth fold_right] in Hdep. fold (dict_depth l) in Hdep.
+        cbn [ser_dict flat_map] in *. fold (ser_dict l) in *. rewrite <- !app_assoc in *.
+        rewrite !app_length in Hf.
+        rewrite scan_str by (first [assumption | discriminate | len_lia]).
+        rewrite IHx by (first [assumption | discriminate | lia | len_lia]).
+        rewrite IHl by (first [assumption | lia | len_lia]).
+        destruct (scan f (S d) rest); [|reflexivity]. cbn [option_map]. f_equal.
+        rewrite !app_length. lia. }
+    remember (scan f d rest) as R eqn:HR.
+    destruct f as [|f]; [lia|]. cbn [app]. cbn [scan].
+    replace (ch_d =? ch_i) with false by reflexivity.
+    replace (is_digit ch_d) with false by reflexivity.
+    replace ((ch_d =? ch_l) || (ch_d =? ch_d)) with true by reflexivity.
+    destruct (Nat.ltb max_depth (S d)) eqn:El; [apply Nat.ltb_lt in El; lia|].
+    cbn [Nat.eqb]. cbn [length] in Hf. rewrite <- app_assoc. rewrite !app_length in Hf. cbn [length app] in Hf.
+    rewrite Hl by len_lia. cbn [app].
+    destruct f as [|f]; [len_lia|]. cbn [scan].
+    replace (ch_e =? ch_i) with false by reflexivity.
+    replace (is_digit ch_e) with false by reflexivity.
+    replace ((ch_e =? ch_l) || (ch_e =? ch_d)) with false by reflexivity.
+    replace (ch_e =? ch_e) with true by reflexivity.
+    destruct (Nat.eqb d 0) eqn:Ed; [apply Nat.eqb_eq in Ed; contradiction|].
+    rewrite (scan_fuel f (S (S f))) by len_lia. rewrite <- HR.
+    destruct R; [|reflexivity]. cbn [option_map]. f_equal. len_lia.
+Qed.
+
+(* a top-level dictionary followed by anything: the scan ends exactly behind it *)
+Lemma precheck_dict l trailing :
+  bv_wf (BDict l) -> (vdepth (BDict l) <= max_depth)%nat ->
+  precheck (ser (BDict l) ++ trailing) = Some (length (ser (BDict l))).
+Proof.
+  intros Hwf Hdep. unfold precheck. rewrite ser_BDict in *. cbn [app].
+  rewrite vdepth_BDict in Hdep.
+  (* the entries: as in scan_ser at depth 1 *)
+  assert (Hl : forall l, Forall (fun kv => N.of_nat (length (fst kv)) < 2 ^ 64 /\ bv_wf (snd kv)) l ->
+             (1 + dict_depth l <= max_depth)%nat ->
+             forall f rest, (length (ser_dict l ++ rest) < f)%nat ->
+               scan f 1 (ser_dict l ++ rest)
+               = option_map (fun n => (length (ser_dict l) + n)%nat) (scan f 1 rest)).
+  { clear. induction l as [|x l IHl]; intros Hwf Hdep f rest Hf.
+    - cbn [ser_dict flat_map app length]. destruct (scan f 1 rest); reflexivity.
+    - inversion Hwf as [|? ? [Hk Hx] Hr]; subst.
+      cbn [dict_depth fold_right] in Hdep. fold (dict_depth l) in Hdep.
+      cbn [ser_dict flat_map] in *. fold (ser_dict l) in *. rewrite <- !app_assoc in *.
+      rewrite scan_str by (first [assumption | discriminate | len_lia]).
+      rewrite scan_ser by (first [assumption | discriminate | lia | len_lia]).
+      rewrite IHl by (first [assumption | lia | len_lia]).
+      destruct (scan f 1 rest); [|reflexivity]. cbn [option_map]. f_equal. len_lia. }
+  rewrite scan_open by (right; reflexivity).
+  destruct (Nat.ltb max_depth 1) eqn:El; [apply Nat.ltb_lt in El; lia|].
+  rewrite <- app_assoc. cbn [app].
+  rewrite Hl; [|apply bv_wf_dict; exact Hwf | lia | len_lia].
+  cbn [length]. rewrite !app_length. cbn [length].
+  replace (length (ser_dict l) + S (length trailing))%nat with (S (length (ser_dict l) + length trailing)) by lia.
+  rewrite scan_close. cbn [Nat.eqb option_map]. f_equal; try len_lia.
+Qed.
+
+(* ------------------------------------------------------------------ *)
+(* the key sort; canonical = order-preserving serialisation of a sorted tree *)
+
+Fixpoint keys_sorted {A} (l : list (bytes * A)) : Prop :=
+  match l with
+  | [] => True
+  | x :: r => match r with
+              | [] => True
+              | y :: _ => bytes_ltb (fst x) (fst y) = true
+              end /\ keys_sorted r
+  end.
+
+Lemma bytes_ltb_irrefl a : bytes_ltb a a = false.
+Proof. induction a as [|x a IH]; [reflexivity|]. cbn. rewrite IH. lia. Qed.
+
+Lemma bytes_ltb_asym a : forall b, bytes_ltb a b = true -> bytes_ltb b a = false.
+Proof.
+  induction a as [|x a IH]; intros [|y b] H; cbn in *; try reflexivity; try discriminate.
+  destruct (x <? y) eqn:E1.
+  - replace (y <? x) with false by lia. replace (y =? x) with false by lia. reflexivity.
+  - cbn in H. apply andb_true_iff in H as [E2 H]. apply N.eqb_eq in E2. subst.
+    rewrite N.ltb_irrefl, N.eqb_refl. cbn. apply IH. exact H.
+Qed.
+
+Lemma sort_kv_sorted {A} (l : list (bytes * A)) : keys_sorted l -> sort_kv l = l.
+Proof.
+  induction l as [|x l IH]; intros H; [reflexivity|].
+  cbn [sort_kv]. destruct H as [H1 H2]. rewrite (IH H2).
+  destruct l as [|y l']; [reflexivity|]. cbn [insert_kv].
+  rewrite (bytes_ltb_asym _ _ H1). reflexivity.
+Qed.
+
+(* every dictionary of the tree has strictly increasing keys *)
+Fixpoint bv_sorted (v : bvalue) : Prop :=
+  match v with
+  | BInt _ | BStr _ => True
+  | BList l => (fix go (l : list bvalue) : Prop :=
+                  match l with [] => True | x :: r => bv_sorted x /\ go r end) l
+  | BDict l => keys_sorted l /\
+               (fix go (l : list (bytes * bvalue)) : Prop :=
+                  match l with [] => True | kv :: r => bv_sorted (snd kv) /\ go r end) l
+  end.
+
+Lemma bv_sorted_list l : bv_sorted (BList l) <-> Forall bv_sorted l.
+Proof.
+  cbn [bv_sorted]. induction l as [|x l IH]; [split; constructor|].
+  split.
+  - intros [H1 H2]. constructor; [exact H1 | apply IH; exact H2].
+  - intros H. inversion H; subst. split; [assumption | apply IH; assumption].
+Qed.
+
+Lemma bv_sorted_dict l : bv_sorted (BDict l) <-> keys_sorted l /\ Forall (fun kv => bv_sorted (snd kv)) l.
+Proof.
+  cbn [bv_sorted]. split; intros [Hk H]; (split; [exact Hk|]).
+  - induction l as [|x l IH]; [constructor|]. destruct H as [H1 H2].
+    constructor; [exact H1|]. apply IH; [|exact H2]. destruct Hk as [_ Hk]. exact Hk.
+  - induction l as [|x l IH]; [exact I|]. inversion H; subst.
+    split; [assumption|]. apply IH; [|assumption]. destruct Hk as [_ Hk]. exact Hk.
+Qed.
+
+Lemma keys_sorted_map {A B} (f : A -> B) (l : list (bytes * A)) :
+  keys_sorted l -> keys_sorted (map (fun kv => (fst kv, f (snd kv))) l).
+Proof.
+  induction l as [|x l IH]; intros H; [exact I|]. destruct H as [H1 H2].
+  cbn [map keys_sorted]. split; [|apply IH; exact H2].
+  destruct l as [|y l']; [exact I|]. exact H1.
+Qed.
+
+Lemma canon_BList l : canon (BList l) = ch_l :: flat_map canon l ++ [ch_e].
+Proof. reflexivity. Qed.
+Lemma canon_BDict l :
+  canon (BDict l) = ch_d :: ser_entries (sort_kv (map (fun kv => (fst kv, canon (snd kv))) l)) ++ [ch_e].
+Proof. reflexivity. Qed.
+
+Lemma canon_ser : forall v, bv_sorted v -> canon v = ser v.
+Proof.
+  induction v as [z|s|l IH|l IH] using bvalue_ind'; intros Hs; try reflexivity.
+  - rewrite canon_BList, ser_BList. f_equal. f_equal.
+    apply bv_sorted_list in Hs. unfold ser_list.
+    induction l as [|x l IHl]; [reflexivity|].
+    inversion IH; subst. inversion Hs; subst. cbn [flat_map]. f_equal; auto.
+  - rewrite canon_BDict, ser_BDict. apply bv_sorted_dict in Hs as [Hk Hs].
+    rewrite sort_kv_sorted by (apply keys_sorted_map; exact Hk).
+    f_equal. f_equal. unfold ser_entries, ser_dict. clear Hk.
+    induction l as [|x l IHl]; [reflexivity|].
+    inversion IH; subst. inversion Hs; subst. cbn [map flat_map fst snd]. f_equal; [|auto].
+    f_equal. auto.
+Qed.
+
+(* generic round trip *)
+Lemma bvalue_of_content_of : forall v, bvalue_of (content_of v) = Some v.
+Proof.
+  induction v as [z|s|l IH|l IH] using bvalue_ind'; try reflexivity.
+  - cbn [content_of bvalue_of].
+    assert (H : (fix go (l : list content) : option (list bvalue) :=
+                   match l with
+                   | [] => Some []
+                   | x :: r => match bvalue_of x, go r with
+                               | Some v, Some vs => Some (v :: vs)
+                               | _, _ => None
+                               end
+                   end) (map content_of l) = Some l).
+    { induction l as [|x l IHl]; [reflexivity|]. inversion IH; subst.
+      cbn [map]. rewrite H1, (IHl H2). reflexivity. }
+    rewrite H. reflexivity.
+  - cbn [content_of bvalue_of].
+    assert (H : (fix go (l : list (content * content)) : option (list (bytes * bvalue)) :=
+                   match l with
+                   | [] => Some []
+                   | (CStr k, x) :: r => match bvalue_of x, go r with
+                                         | Some v, Some vs => Some ((k, v) :: vs)
+                                         | _, _ => None
+                                         end
+                   | _ => None
+                   end) (map (fun kv => (CStr (fst kv), content_of (snd kv))) l) = Some l).
+    { induction l as [|x l IHl]; [reflexivity|]. inversion IH; subst.
+      cbn [map]. rewrite H1, (IHl H2). destruct x; reflexivity. }
+    rewrite H. reflexivity.
+Qed.
+
+Lemma parse_value_ser v rest : bv_wf v -> parse_value (ser v ++ rest) = Some (v, rest).
+Proof.
+  intros Hwf. unfold parse_value, any, init_st.
+  destruct (any_ser_tok v Hwf (fuel_for (length (ser v ++ rest))) 0 rest [] 0%nat) as [t [s1 [lg' [mx' [Et [_ Ea]]]]]].
+  { unfold fuel_for. rewrite app_length. lia. }
+  unfold bind. rewrite Et, Ea. cbn [s_in]. rewrite bvalue_of_content_of. reflexivity.
+Qed.
+
+Lemma parse_value_canon v : bv_wf v -> bv_sorted v -> parse_value (canon v) = Some (v, []).
+Proof.
+  intros Hwf Hs. rewrite (canon_ser v Hs), <- (app_nil_r (ser v)). apply parse_value_ser. exact Hwf.
 Qed.
